@@ -71,3 +71,32 @@ def collision_jobs(tmp, n=40, opts=0, ppm=0, dirs=(0, 1)):
         for dr in dirs:
             out.append({"font": p, "cps": cps, "dir": dr, "opts": opts, "ppm": ppm, "id": "collfont%d:d%d" % (s, dr)})
     return out
+
+
+def random_jobs(n=100, seed=1, opts=0, ppm=0, dirs=None, fonts=None):
+    """Pseudo-random strings over the characters of each font's corpus text (plus a few characters of other scripts):
+    sequences no natural text contains, so that rarely combined rules meet (deterministic in the seed)."""
+    import random
+    rng = random.Random(seed * 7919 + 13)
+    out = []
+    seen = set()
+    for font, text, rtl in PAIRS:
+        if font in seen or (fonts and font not in fonts):
+            continue
+        seen.add(font)
+        try:
+            chars = sorted({ord(c) for c in open(os.path.join(T, text), encoding="utf-8", errors="ignore").read() if not c.isspace()})
+        except OSError:
+            continue
+        if not chars:
+            continue
+        extra = [0x20, 0x200C, 0x200D, 0x25CC, 0x41, 0x627, 0x1000, 0x915, 0x10000, 0xFFFD]
+        for k in range(n):
+            ln = rng.choice([1, 2, 2, 3, 3, 4, 5, 6, 8, 12])
+            cps = [rng.choice(chars) if rng.random() < 0.92 else rng.choice(extra) for _ in range(ln)]
+            if rng.random() < 0.3:            # repeated marks / the same character several times
+                j = rng.randrange(len(cps))
+                cps[j:j] = [cps[j]] * rng.choice([1, 2, 3])
+            for d in (dirs if dirs is not None else [rtl]):
+                out.append({"font": os.path.join(F, font), "cps": cps, "dir": d, "opts": opts, "ppm": ppm, "id": "random:%s:%d:d%d" % (font, k, d)})
+    return out
